@@ -523,7 +523,7 @@ class FuncCanon(object):
         changed = False
         for blk in _all_blocks(self.fn):
             top = blk is self.fn.body
-            if self.star(blk) or self.thread(blk) or self.deadstore(blk) or self.kw(blk) or self.split(blk) or self.retsplit(blk) or self.forelse(blk) or self.rot(blk) or self.brk(blk, top) or self.wtop(blk) or self.ifs(blk) or self.sink(blk) or self.unpack(blk) or self.fwd(blk):
+            if self.star(blk) or self.flagloop(blk) or self.thread(blk) or self.deadstore(blk) or self.kw(blk) or self.split(blk) or self.retsplit(blk) or self.forelse(blk) or self.rot(blk) or self.brk(blk, top) or self.wtop(blk) or self.ifs(blk) or self.sink(blk) or self.unpack(blk) or self.fwd(blk):
                 return True
         return changed
 
@@ -602,6 +602,65 @@ class FuncCanon(object):
             if isinstance(n, ast.Lambda):
                 continue
             stack.extend(ast.iter_child_nodes(n))
+
+    # -- FLAG ------------------------------------------------------------------------------------------------------
+    def flagloop(self, blk):
+        """`done = False` ; `while not done: .. done = True(tail) ..`   ->   `while True: .. break ..`
+        (also the positive form `go = True; while go: .. go = False`, and a tail `done = <cond>` -> `if <cond>: break`).
+        The flag is a local read only by the loop test; every assignment to it inside the loop is the last thing the
+        iteration does."""
+        for i in range(1, len(blk)):
+            init, lp = blk[i - 1], blk[i]
+            if not (isinstance(lp, ast.While) and not lp.orelse):
+                continue
+            t = lp.test
+            neg = isinstance(t, ast.UnaryOp) and isinstance(t.op, ast.Not)
+            name = t.operand if neg else t
+            if not isinstance(name, ast.Name):
+                continue
+            f = name.id
+            if f in self.params or f in self.captured or len(self.loads.get(f, ())) != 1:
+                continue
+            if not (isinstance(init, ast.Assign) and len(init.targets) == 1 and isinstance(init.targets[0], ast.Name) and init.targets[0].id == f
+                    and isinstance(init.value, ast.Constant) and init.value.value is (False if neg else True)):
+                continue
+            stop_value = True if neg else False        # the value that ends the loop
+            sites = []
+
+            def tails(body):
+                """assignments to f in tail position of `body`; False if f is assigned anywhere else in it"""
+                if not body:
+                    return True
+                for st in body[:-1]:
+                    if any(isinstance(n, ast.Name) and n.id == f and isinstance(n.ctx, ast.Store) for n in ast.walk(st)):
+                        return False
+                last = body[-1]
+                if isinstance(last, ast.Assign) and len(last.targets) == 1 and isinstance(last.targets[0], ast.Name) and last.targets[0].id == f:
+                    sites.append((body, len(body) - 1))
+                    return not any(isinstance(n, ast.Name) and n.id == f for n in ast.walk(last.value))
+                if isinstance(last, ast.If):
+                    return tails(last.body) and tails(last.orelse)
+                return not any(isinstance(n, ast.Name) and n.id == f and isinstance(n.ctx, ast.Store) for n in ast.walk(last))
+            if not tails(lp.body) or not sites:
+                continue
+            if len(self.stores.get(f, ())) != len(sites) + 1:
+                continue
+            if _contains_own(lp.body, ast.Continue):
+                continue      # `continue` re-tests the flag; keep it simple
+            for owner, k in sites:
+                st = owner[k]
+                v = st.value
+                if isinstance(v, ast.Constant) and isinstance(v.value, bool):
+                    new = ast.Break() if v.value is stop_value else ast.Pass()
+                    owner[k] = ast.copy_location(new, st)
+                else:
+                    cond = v if stop_value else negate(v)
+                    owner[k] = ast.copy_location(ast.If(test=cond, body=[ast.copy_location(ast.Break(), st)], orelse=[]), st)
+            lp.test = ast.copy_location(ast.Constant(value=True), lp.test)
+            del blk[i - 1]
+            self.bump("FLAG")
+            return True
+        return False
 
     # -- THREAD ----------------------------------------------------------------------------------------------------
     def thread(self, blk):
@@ -1591,6 +1650,11 @@ def _tailify(stmts, ret, at):
             ne = _tailify(st.orelse + ([] if e_exit else rest), ret, at)
             new = ast.copy_location(ast.If(test=st.test, body=nb or [ast.copy_location(ast.Pass(), st)], orelse=ne), st)
             out.append(new)
+            return out
+        if isinstance(st, (ast.With, ast.AsyncWith)) and _contains_return(st) and i == len(stmts) - 1:
+            # the with-statement ends the helper: a return at the tail of its body leaves the block normally first
+            st.body = _tailify(st.body, ret, at) or [ast.copy_location(ast.Pass(), st)]
+            out.append(st)
             return out
         if _contains_return(st):
             raise Bail("return inside a loop / try / with")
